@@ -1,4 +1,5 @@
-"""U18 jobs: the job table (brush-core/src/jobs.rs): distinct ids, nothing lost or duplicated when sweeping/polling."""
+"""U18 jobs: the job table (brush-core/src/jobs.rs): distinct ids, nothing lost or duplicated when sweeping/polling,
+`wait_all` awaits every job before it sweeps."""
 from vx.unit import Unit
 from vx.extract import C
 
@@ -6,9 +7,15 @@ PROPS = ['C17', 'C01']
 HEADER = '#![feature(allocator_api)]\nuse vstd::prelude::*;\nuse vstd::std_specs::iter::IteratorSpec;\nuse std::collections::VecDeque;\nverus! {\n'
 FOOTER = '\n} // verus!\nfn main() {}\n'
 
+# The property asks for distinct live job numbers.  The table invariant that carries it may be plain distinctness or the
+# stronger "strictly increasing ids" (which the current code also maintains): the unit holds if the operations are inductive
+# for either (the second is tried only when the first fails), so a change relying on sortedness is not a false alarm.
+INVS = {'distinct': 'ids_distinct(js)', 'sorted': 'ids_sorted(js)'}
 
-def build(repo, findings):
-    u = Unit('U18', 'job table: distinct ids, sweep/poll lose or duplicate nothing', repo, ['C17'], safety_props=['C01', 'C17'])
+
+def build(repo, findings, inv='distinct'):
+    u = Unit('U18', 'job table: distinct ids, sweep/poll lose or duplicate nothing, wait_all awaits every job [table invariant: %s]' % inv,
+             repo, ['C17'], safety_props=['C01', 'C17'])
     src = u.source('brush-core/src/jobs.rs')
     u.raw(HEADER)
     u.add(src.item(r'^pub enum JobAnnotation ', 'JobAnnotation').r1(keep_derive=()))
@@ -16,98 +23,125 @@ def build(repo, findings):
     u.add(src.item(r'^pub struct Job ', 'Job').r1(keep_derive=()).r11().pub_fields())
     u.add(src.item(r'^pub struct JobManager ', 'JobManager').r1(keep_derive=()).r11())
     u.prelude('jobs/spec.rs')
-    # add_as_current: the part after the annotation loop (R6 slice); the `for j in &mut self.jobs { .. break }` loop needs IterMut
-    # resolution facts vstd does not provide and is NOT verified (its only writes are to `annotation`)
-    t = src.slice('add_as_current', r'^\s*let mut id = 1;', None,
-                  'fn add_as_current_tail(self_: &mut JobManager, mut job: Job) -> &Job', 'add_as_current_tail')
-    t.r1().resub(r'\bself\b', 'self_', 'R6', 'slice wrapper: self -> self_', count=None)
-    t.sig(ret='r', requires=[
-        C('aux ids-below-max', 'forall|i: int| 0 <= i < old(self_).jobs@.len() ==> (#[trigger] old(self_).jobs@[i]).id < usize::MAX'),
-        C('aux table-distinct', 'ids_distinct(old(self_).jobs@)'),
-        C('aux no-current-left', 'no_current(old(self_).jobs@)'),
-    ], ensures=[
-        C('C17 old-jobs-untouched', 'final(self_).jobs@.len() == old(self_).jobs@.len() + 1 && final(self_).jobs@.drop_last() == old(self_).jobs@'),
-        C('C17 new-job-is-current', 'final(self_).jobs@.last().annotation is Current && *r == final(self_).jobs@.last()'),
-        C('C17 new-id-above-all-live-ids', 'forall|i: int| 0 <= i < old(self_).jobs@.len() ==> (#[trigger] old(self_).jobs@[i]).id < final(self_).jobs@.last().id'),
-        C('C17 live-ids-distinct', 'ids_distinct(final(self_).jobs@) && final(self_).jobs@.last().id >= 1'),
-        C('C17 at-most-one-current', 'at_most_one_current(final(self_).jobs@)'),
-    ])
-    t.loop(0, iter_name='it', invariant=[
-        C('aux', 'it.index@ + it.iter.remaining().len() == self_.jobs@.len()'),
-        C('aux', 'forall|i: int| 0 <= i < it.iter.remaining().len() ==> *(#[trigger] it.iter.remaining()[i]) == self_.jobs@[it.index@ + i]'),
-        C('aux', 'self_.jobs@ == old(self_).jobs@ && forall|i: int| 0 <= i < self_.jobs@.len() ==> (#[trigger] self_.jobs@[i]).id < usize::MAX'),
-        C('C17 id-above-all-seen', 'id >= 1 && forall|i: int| 0 <= i < it.index@ ==> (#[trigger] self_.jobs@[i]).id < id'),
-    ], body_first='proof { assert(*j == self_.jobs@[it.index@ as int]); }')
-    u.add(t)
+    u.raw('pub open spec fn table_inv(js: Seq<Job>) -> bool { %s }\n' % INVS[inv])
     im = src.item(r'^impl JobManager ', 'impl JobManager').r1().r3()
-    im.keep_only_fns(['poll', 'sweep_completed_jobs'], 'constructors, iterator find() accessors, async wait paths and the annotation loop of add_as_current — NOT verified')
+    im.keep_only_fns(['add_as_current', 'wait_all', 'poll', 'sweep_completed_jobs'],
+                     'constructors, iterator find() accessors, job-spec resolution — NOT verified')
     im.r11()
+    im.r16('add_as_current', 0, suffix='a')
+    im.r16('wait_all', 0, suffix='w', optional=True)
+    # ---------------------------------------------------------------- add_as_current (whole function)
+    fn = 'add_as_current'
+    im.sig(fn, ret='r', requires=[
+        C('aux ids-below-max', 'forall|i: int| 0 <= i < old(self).jobs@.len() ==> (#[trigger] old(self).jobs@[i]).id < usize::MAX'),
+        C('aux table-invariant', 'table_inv(old(self).jobs@)'),
+        C('aux one-current', 'at_most_one_current(old(self).jobs@)'),
+    ], ensures=[
+        C('C17 old-jobs-kept', 'final(self).jobs@.len() == old(self).jobs@.len() + 1 && same_ids(final(self).jobs@.drop_last(), old(self).jobs@)'),
+        C('C17 old-jobs-untouched-but-annotation', 'forall|i: int| 0 <= i < old(self).jobs@.len() ==> (#[trigger] final(self).jobs@[i]).tasks == old(self).jobs@[i].tasks && final(self).jobs@[i].state == old(self).jobs@[i].state'),
+        C('C17 new-job-is-current', 'final(self).jobs@.last().annotation is Current && *r == final(self).jobs@.last()'),
+        C('C17 new-id-differs-from-all-live-ids', 'forall|i: int| 0 <= i < old(self).jobs@.len() ==> (#[trigger] old(self).jobs@[i]).id != final(self).jobs@.last().id'),
+        C('C17 live-ids-distinct', 'table_inv(final(self).jobs@) && ids_distinct(final(self).jobs@)'),
+        C('C17 at-most-one-current', 'at_most_one_current(final(self).jobs@)'),
+    ])
+    AINV = [
+        C('aux', 'same_ids(self.jobs@, old(self).jobs@)'),
+        C('aux', 'forall|i: int| 0 <= i < self.jobs@.len() ==> (#[trigger] self.jobs@[i]).tasks == old(self).jobs@[i].tasks && self.jobs@[i].state == old(self).jobs@[i].state'),
+    ]
+    im.loop(0, fn_name=fn, invariant_except_break=[
+        C('aux', '__na <= self.jobs@.len()'),
+        C('aux', 'self.jobs@ == old(self).jobs@'),
+        C('aux', 'at_most_one_current(self.jobs@)'),
+        C('C17 no-current-among-seen', 'forall|i: int| 0 <= i < __na ==> !((#[trigger] self.jobs@[i]).annotation is Current)'),
+    ], ensures=AINV + [
+        C('C17 previous-current-demoted', 'no_current(self.jobs@)'),
+    ], decreases='self.jobs@.len() - __na')
+    im.loop(1, fn_name=fn, iter_name='it', invariant=[
+        C('aux', 'it.index@ + it.iter.remaining().len() == self.jobs@.len()'),
+        C('aux', 'forall|i: int| 0 <= i < it.iter.remaining().len() ==> *(#[trigger] it.iter.remaining()[i]) == self.jobs@[it.index@ + i]'),
+        C('aux', 'forall|i: int| 0 <= i < self.jobs@.len() ==> (#[trigger] self.jobs@[i]).id < usize::MAX'),
+        C('aux', 'no_current(self.jobs@) && table_inv(self.jobs@)'),
+    ] + AINV + [
+        C('C17 id-above-all-seen', 'id >= 1 && forall|i: int| 0 <= i < it.index@ ==> (#[trigger] self.jobs@[i]).id < id'),
+    ], body_first='proof { assert(*j == self.jobs@[it.index@ as int]); }', optional=True)
+    im.before(r'^\s*self\.jobs\.push\(job\);', 'let ghost pre_push = self.jobs@;', fn_name=fn, optional=True)
+    im.after_line(r'^\s*self\.jobs\.push\(job\);', 'proof { assert(self.jobs@.drop_last() =~= pre_push); }', fn_name=fn, optional=True)
+    # ---------------------------------------------------------------- wait_all
+    fn = 'wait_all'
+    im.sig(fn, ret='res', ensures=[
+        C('C17 wait-returns-only-after-every-job-was-awaited', 'res is Ok ==> forall|i: int| 0 <= i < final(self).jobs@.len() ==> (#[trigger] final(self).jobs@[i]).state is Stopped'),
+        C('C17 wait-loses-no-job', 'res is Ok ==> res->Ok_0@.len() + final(self).jobs@.len() == old(self).jobs@.len()'),
+        C('C17 wait-reports-only-finished-jobs', 'res is Ok ==> forall|k: int| 0 <= k < res->Ok_0@.len() ==> (#[trigger] res->Ok_0@[k]).tasks@.len() == 0'),
+        C('C17 wait-keeps-ids-distinct', 'res is Ok ==> (table_inv(old(self).jobs@) ==> table_inv(final(self).jobs@))'),
+    ])
+    im.loop(0, fn_name=fn, invariant=[
+        C('aux', '__nw <= self.jobs@.len()'),
+        C('aux', 'same_ids(self.jobs@, old(self).jobs@)'),
+        C('C17 every-job-so-far-awaited', 'forall|i: int| 0 <= i < __nw ==> awaited(#[trigger] self.jobs@[i])'),
+    ], decreases='self.jobs@.len() - __nw', optional=True)
+    im.before(r'^\s*Ok\(self\.sweep_completed_jobs\(\)\)', 'proof { if table_inv(old(self).jobs@) { lemma_same_ids_inv(self.jobs@, old(self).jobs@); } }', fn_name=fn, optional=True)
+    # ---------------------------------------------------------------- sweep_completed_jobs
     fn = 'sweep_completed_jobs'
     im.sig(fn, ret='completed_jobs', ensures=[
         C('C17 sweep-loses-nothing', 'completed_jobs@.len() + final(self).jobs@.len() == old(self).jobs@.len()'),
         C('C17 sweep-removes-only-finished', 'forall|i: int| 0 <= i < completed_jobs@.len() ==> (#[trigger] completed_jobs@[i]).tasks@.len() == 0'),
         C('C17 sweep-keeps-all-unfinished', 'forall|i: int| 0 <= i < final(self).jobs@.len() ==> (#[trigger] final(self).jobs@[i]).tasks@.len() != 0'),
-        C('C17 sweep-keeps-order-and-identity', 'exists|f: Seq<int>| is_subseq_by(final(self).jobs@, old(self).jobs@, f)'),
-        C('C17 sweep-keeps-ids-distinct', 'ids_distinct(old(self).jobs@) ==> ids_distinct(final(self).jobs@)'),
+        C('C17 sweep-keeps-each-job-once', 'exists|f: Seq<int>| is_inj_by(final(self).jobs@, old(self).jobs@, f)'),
+        C('C17 sweep-keeps-only-old-jobs', 'forall|i: int| 0 <= i < final(self).jobs@.len() ==> old(self).jobs@.contains(#[trigger] final(self).jobs@[i])'),
+        C('C17 sweep-keeps-ids-distinct', 'table_inv(old(self).jobs@) ==> table_inv(final(self).jobs@)'),
     ])
     im.ascribe(r'^\s*let mut completed_jobs = vec!\[\];', 'Vec<Job>', fn_name=fn)
-    im.before(r'^\s*let mut i = 0;', 'let ghost mut fmap: Seq<int> = Seq::new(self.jobs@.len(), |k: int| k);\nlet ghost mut removed: int = 0;', fn_name=fn)
+    im.before(r'^\s*let mut i = 0;', 'let ghost mut fmap: Seq<int> = Seq::new(self.jobs@.len(), |k: int| k);', fn_name=fn)
     im.loop(0, fn_name=fn, invariant=[
         C('aux', 'i <= self.jobs@.len()'),
-        C('C17 sweep-count', 'completed_jobs@.len() + self.jobs@.len() == old(self).jobs@.len() && removed == completed_jobs@.len()'),
+        C('C17 sweep-count', 'completed_jobs@.len() + self.jobs@.len() == old(self).jobs@.len()'),
         C('aux', 'forall|k: int| 0 <= k < completed_jobs@.len() ==> (#[trigger] completed_jobs@[k]).tasks@.len() == 0'),
         C('aux', 'forall|k: int| 0 <= k < i ==> (#[trigger] self.jobs@[k]).tasks@.len() != 0'),
-        C('C17 sweep-subsequence', 'is_subseq_by(self.jobs@, old(self).jobs@, fmap)'),
+        C('C17 sweep-each-kept-job-is-an-old-job-once', 'is_inj_by(self.jobs@, old(self).jobs@, fmap)'),
+        C('C17 sweep-table-invariant', 'table_inv(old(self).jobs@) ==> table_inv(self.jobs@)'),
     ], decreases='self.jobs@.len() - i')
-    im.before(r'^\s*completed_jobs\.push\(self\.jobs\.remove\(i\)\);', 'let ghost before = self.jobs@;\nlet ghost fm0 = fmap;', fn_name=fn, optional=True)
-    im.after_line(r'^\s*completed_jobs\.push\(self\.jobs\.remove\(i\)\);', '''proof {
-    fmap = fm0.remove(i as int);
-    removed = removed + 1;
-    assert(self.jobs@ =~= before.remove(i as int));
-    assert forall|a: int| 0 <= a < self.jobs@.len() implies 0 <= #[trigger] fmap[a] < old(self).jobs@.len() && self.jobs@[a] == old(self).jobs@[fmap[a]] by {
-        if a < i { assert(fmap[a] == fm0[a]); assert(self.jobs@[a] == before[a]); } else { assert(fmap[a] == fm0[a + 1]); assert(self.jobs@[a] == before[a + 1]); }
-    }
-    assert forall|a: int, b: int| 0 <= a < b < self.jobs@.len() implies fmap[a] < fmap[b] by {
-        let a2 = if a < i { a } else { a + 1 }; let b2 = if b < i { b } else { b + 1 };
-        assert(fmap[a] == fm0[a2] && fmap[b] == fm0[b2] && a2 < b2);
-    }
-}''', fn_name=fn, optional=True)
-    im.before(r'^\s*completed_jobs$', 'proof { if ids_distinct(old(self).jobs@) { lemma_subseq_distinct(self.jobs@, old(self).jobs@, fmap); } }', fn_name=fn)
-    # poll
+    REMOVE = r'^\s*completed_jobs\.push\(self\.jobs\.remove\(i\)\);'
+    SWAPRM = r'^\s*completed_jobs\.push\(self\.jobs\.swap_remove\(i\)\);'
+    im.before(REMOVE, 'let ghost before = self.jobs@;\nlet ghost fm0 = fmap;', fn_name=fn, optional=True)
+    im.after_line(REMOVE, 'proof { fmap = fm0.remove(i as int); lemma_remove_inj(before, self.jobs@, old(self).jobs@, fm0, fmap, i as int); }', fn_name=fn, optional=True)
+    im.before(SWAPRM, 'let ghost before = self.jobs@;\nlet ghost fm0 = fmap;', fn_name=fn, optional=True)
+    im.after_line(SWAPRM, 'proof { fmap = fm0.update(i as int, fm0.last()).drop_last(); lemma_swap_remove_inj(before, self.jobs@, old(self).jobs@, fm0, fmap, i as int); if ids_distinct(before) { lemma_swap_remove_keeps_distinct(before, self.jobs@, i as int); } }', fn_name=fn, optional=True)
+    im.before(r'^\s*completed_jobs$', 'proof { assert forall|a: int| 0 <= a < self.jobs@.len() implies old(self).jobs@.contains(#[trigger] self.jobs@[a]) by { assert(old(self).jobs@[fmap[a]] == self.jobs@[a]); } }', fn_name=fn, optional=True)
+    # ---------------------------------------------------------------- poll
     fn = 'poll'
     im.sig(fn, ret='res', ensures=[
         C('C17 poll-loses-nothing', 'res is Ok ==> res->Ok_0@.len() + final(self).jobs@.len() == old(self).jobs@.len()'),
         C('C17 poll-removes-only-done', 'res is Ok ==> forall|k: int| 0 <= k < res->Ok_0@.len() ==> (#[trigger] res->Ok_0@[k]).0.state is Done'),
-        C('C17 poll-keeps-ids', 'res is Ok ==> (ids_distinct(old(self).jobs@) ==> ids_distinct(final(self).jobs@))'),
+        C('C17 poll-keeps-each-live-id-once', 'res is Ok ==> exists|f: Seq<int>| ids_inj_by(final(self).jobs@, old(self).jobs@, f)'),
+        C('C17 poll-keeps-ids-distinct', 'res is Ok ==> (table_inv(old(self).jobs@) ==> table_inv(final(self).jobs@))'),
     ])
     im.ascribe(r'^\s*let mut results = Vec::with_capacity\(self\.jobs\.len\(\)\);', 'Vec<JobResult>', fn_name=fn)
     im.before(r'^\s*let mut i = 0;', 'let ghost mut fmap: Seq<int> = Seq::new(self.jobs@.len(), |k: int| k);', fn_name=fn)
-    REMOVE_HINT = '''proof {
-    fmap = fm0.remove(i as int);
-    assert(self.jobs@ =~= before.remove(i as int));
-    assert forall|a: int| 0 <= a < self.jobs@.len() implies 0 <= #[trigger] fmap[a] < old(self).jobs@.len() && self.jobs@[a].id == old(self).jobs@[fmap[a]].id by {
-        if a < i { assert(fmap[a] == fm0[a]); assert(self.jobs@[a] == before[a]); } else { assert(fmap[a] == fm0[a + 1]); assert(self.jobs@[a] == before[a + 1]); }
-    }
-    assert forall|a: int, b: int| 0 <= a < b < self.jobs@.len() implies fmap[a] < fmap[b] by {
-        let a2 = if a < i { a } else { a + 1 }; let b2 = if b < i { b } else { b + 1 };
-        assert(fmap[a] == fm0[a2] && fmap[b] == fm0[b2] && a2 < b2);
-    }
-}'''
     im.loop(0, fn_name=fn, invariant=[
         C('aux', 'i <= self.jobs@.len()'),
         C('C17 poll-count', 'results@.len() + self.jobs@.len() == old(self).jobs@.len()'),
         C('C17 poll-only-done-removed', 'forall|k: int| 0 <= k < results@.len() ==> (#[trigger] results@[k]).0.state is Done'),
-        C('C17 poll-ids-subsequence', 'ids_subseq_by(self.jobs@, old(self).jobs@, fmap)'),
+        C('C17 poll-each-live-id-is-an-old-id-once', 'ids_inj_by(self.jobs@, old(self).jobs@, fmap)'),
+        C('C17 poll-table-invariant', 'table_inv(old(self).jobs@) ==> table_inv(self.jobs@)'),
     ], decreases='self.jobs@.len() - i', body_first='let ghost before0 = self.jobs@;')
-    im.after_line(r'^\s*if let Some\(result\) = self\.jobs\[i\]\.poll_done\(\)\? \{', 'let ghost before = self.jobs@;\nlet ghost fm0 = fmap;\nproof { assert(before.len() == before0.len()); assert forall|a: int| 0 <= a < before.len() implies before[a].id == before0[a].id by { if a != i { assert(before[a] == before0[a]); } } }', fn_name=fn, optional=True)
-    im.after_line(r'^\s*let job = self\.jobs\.remove\(i\);', REMOVE_HINT, fn_name=fn, optional=True)
-    im.before(r'^\s*results\.push\(\(self\.jobs\.remove\(i\), Ok\(ExecutionResult::success\(\)\)\)\);', 'let ghost before = self.jobs@;\nlet ghost fm0 = fmap;', fn_name=fn, optional=True)
-    im.after_line(r'^\s*results\.push\(\(self\.jobs\.remove\(i\), Ok\(ExecutionResult::success\(\)\)\)\);', REMOVE_HINT, fn_name=fn, optional=True)
-    im.before(r'^\s*Ok\(results\)$', 'proof { if ids_distinct(old(self).jobs@) { lemma_ids_subseq_distinct(self.jobs@, old(self).jobs@, fmap); } }', fn_name=fn)
+    im.after_line(r'^\s*if let Some\(result\) = self\.jobs\[i\]\.poll_done\(\)\? \{',
+                  'let ghost before = self.jobs@;\nlet ghost fm0 = fmap;\nproof { lemma_same_ids_map(before0, before, old(self).jobs@, fm0); if table_inv(old(self).jobs@) { lemma_same_ids_inv(before, before0); } }', fn_name=fn, optional=True)
+    for rx in (r'^\s*let job = self\.jobs\.remove\(i\);',):
+        im.after_line(rx, 'proof { fmap = fm0.remove(i as int); lemma_remove_ids_inj(before, self.jobs@, old(self).jobs@, fm0, fmap, i as int); }', fn_name=fn, optional=True)
+    im.after_line(r'^\s*let job = self\.jobs\.swap_remove\(i\);', 'proof { fmap = fm0.update(i as int, fm0.last()).drop_last(); lemma_swap_remove_ids_inj(before, self.jobs@, old(self).jobs@, fm0, fmap, i as int); if ids_distinct(before) { lemma_swap_remove_keeps_distinct(before, self.jobs@, i as int); } }', fn_name=fn, optional=True)
+    R2 = r'^\s*results\.push\(\(self\.jobs\.remove\(i\), Ok\(ExecutionResult::success\(\)\)\)\);'
+    im.before(R2, 'let ghost before = self.jobs@;\nlet ghost fm0 = fmap;\nproof { lemma_same_ids_map(before0, before, old(self).jobs@, fm0); if table_inv(old(self).jobs@) { lemma_same_ids_inv(before, before0); } }', fn_name=fn, optional=True)
+    im.after_line(R2, 'proof { fmap = fm0.remove(i as int); lemma_remove_ids_inj(before, self.jobs@, old(self).jobs@, fm0, fmap, i as int); }', fn_name=fn, optional=True)
+    R3 = r'^\s*results\.push\(\(self\.jobs\.swap_remove\(i\), Ok\(ExecutionResult::success\(\)\)\)\);'
+    im.before(R3, 'let ghost before = self.jobs@;\nlet ghost fm0 = fmap;\nproof { lemma_same_ids_map(before0, before, old(self).jobs@, fm0); if table_inv(old(self).jobs@) { lemma_same_ids_inv(before, before0); } }', fn_name=fn, optional=True)
+    im.after_line(R3, 'proof { fmap = fm0.update(i as int, fm0.last()).drop_last(); lemma_swap_remove_ids_inj(before, self.jobs@, old(self).jobs@, fm0, fmap, i as int); if ids_distinct(before) { lemma_swap_remove_keeps_distinct(before, self.jobs@, i as int); } }', fn_name=fn, optional=True)
+    im.before(r'^\s*i \+= 1;', 'proof { lemma_same_ids_map(before0, self.jobs@, old(self).jobs@, fmap); if table_inv(old(self).jobs@) { lemma_same_ids_inv(self.jobs@, before0); } }', fn_name=fn, optional=True)
     u.add(im)
     u.raw(FOOTER)
-    u.assume('assume_specification', 'VecDeque::is_empty() == (len == 0); Vec::with_capacity(n) is empty (std documented behaviour)')
-    u.assume('external_body', 'Job::poll_done is a stub (touches tasks/state only; id and annotation preserved); JobTask, ExecutionResult, Error opaque')
-    u.assume('stub', 'the annotation loop of add_as_current (`for j in &mut self.jobs { .. break }`) is NOT verified: vstd has no resolution spec for a partially consumed IterMut; its effect is assumed to be limited to `annotation` fields and to leave no job Current (precondition no_current of the verified tail). wait_all / tokio scheduling / output visibility are out of reach.')
-    u.expected_min_fns = 5
+    u.assume('assume_specification', 'VecDeque::is_empty() == (len == 0); Vec::with_capacity(n) is empty; Option::map_or(o, d, f) is d / f(x) (std documented behaviour)')
+    u.assume('external_body', 'Job::poll_done and Job::wait are stubs whose contracts are read off their bodies (touch tasks/state only; id and annotation preserved; wait returns Ok only with no task left or state Stopped); JobTask, ExecutionResult, Error opaque')
+    u.assume('stub', 'tokio scheduling, the happens-before of a background task\'s effects relative to the JoinHandle await inside JobTask::wait, and output visibility are out of reach of a per-function contract (see DESIGN.md, C17 scope)')
+    u.expected_min_fns = 6
+    if inv == 'distinct':
+        u.alternatives = [lambda: build(repo, findings, 'sorted')]
     return u
